@@ -19,7 +19,10 @@ type Series struct {
 	Iters   []*ListIter
 }
 
-func NewSeries(l labels.Labels, s []Sample) *Series { return &Series{L: l, S: s, FailAt: -1} }
+func NewSeries(l labels.Labels, s []Sample) *Series {
+	sym.ReadOnly("storage-labels", l)
+	return &Series{L: l, S: s, FailAt: -1}
+}
 
 func (s *Series) Labels() labels.Labels { return s.L }
 func (s *Series) Iterator() chunkenc.Iterator {
